@@ -1,0 +1,27 @@
+//go:build verif
+// +build verif
+
+package rules
+
+import "github.com/kstenerud/go-concise-encoding/ce/events"
+
+// Verification hooks (build tag "verif").
+
+// VerifArrayTypeToDataType exposes the array-type -> data-type table.
+func VerifArrayTypeToDataType() []DataType {
+	return append([]DataType{}, arrayTypeToDataType...)
+}
+
+// VerifCurrentRuleName reports the String() of the rule currently in force.
+func (_this *RulesEventReceiver) VerifCurrentRuleName() string {
+	return _this.context.CurrentEntry.Rule.(interface{ String() string }).String()
+}
+
+// VerifStackDepth reports the rule stack size and the container depth.
+func (_this *RulesEventReceiver) VerifStackDepth() (stack int, depth uint64, objects uint64) {
+	return len(_this.context.stack), _this.context.containerDepth, _this.context.objectCount
+}
+
+const VerifMaxMarkerIDRuneCount = maxMarkerIDRuneCount
+
+var _ = events.ArrayTypeInvalid
